@@ -10,10 +10,10 @@ import json, os, subprocess, sys, shutil, re, time
 ROOT = os.environ.get("MUT_ROOT", "/tmp/mut")
 SUFFIX = os.environ.get("MUT_SUFFIX", "")
 ENV = dict(os.environ, GOFLAGS="-mod=mod", GOPROXY="off", GOSUMDB="off", GOTOOLCHAIN="local")
-REL = {"app": ["C19", "C10", "C09"], "app/upgrades": ["C19"], "x/aol/types": ["C16", "C18", "C08", "C01"], "x/aol/keeper": ["C01", "C02", "C13", "C10", "C08", "C17"], "x/aol": ["C08"],
-       "x/did/types": ["C16", "C17", "C11", "C03", "C08"], "x/did/keeper": ["C03", "C04", "C05", "C10", "C11", "C08"], "x/did": ["C08"],
-       "x/pnft/types": ["C12", "C06", "C08", "C16"], "x/pnft/keeper": ["C06", "C12", "C08"], "x/pnft": ["C08"],
-       "x/burn": ["C07"], "types/compkey": ["C18", "C01"], "x/did/client/crypto": ["C17", "C20"]}
+REL = {"app": ["C19", "C10", "C09"], "app/upgrades": ["C19"], "x/aol/types": ["C16", "C14", "C02", "C08", "C01", "C18"], "x/aol/keeper": ["C01", "C02", "C13", "C10", "C08", "C17"], "x/aol": ["C08"],
+       "x/did/types": ["C16", "C17", "C11", "C03", "C14", "C20", "C08"], "x/did/keeper": ["C03", "C04", "C05", "C10", "C11", "C08"], "x/did": ["C08", "C05"],
+       "x/pnft/types": ["C12", "C06", "C08", "C16", "C14"], "x/pnft/keeper": ["C06", "C12", "C09", "C08"], "x/pnft": ["C08"],
+       "x/burn": ["C07", "C10", "C09"], "x/burn/keeper": ["C07", "C10", "C09"], "types/compkey": ["C18", "C01", "C13"], "x/did/client/crypto": ["C17", "C20"]}
 
 def sh(cmd, cwd, timeout=3600):
     r = subprocess.run(cmd, cwd=cwd, env=ENV, shell=True, capture_output=True, text=True, timeout=timeout)
